@@ -184,11 +184,32 @@ func init() {
 		r.Check(full, "C16/CLOSE-DISCARD", "RingBuffer.Close clears all slots", p.Pos(cls.Pos()), why, why)
 
 		// SINGLE-CONSUMER
-		r.Rule("C16/SINGLE-CONSUMER", "Pull has one caller (Processor.runInner), which is reached only from the goroutine spawned in Processor.Start; Start marks the processor running before spawning; Close cancels, closes the ring, then waits for the consumer iff running", 5)
-		runInner, run, start, pclose := p.Func(apPkg, "Processor.runInner"), p.Func(apPkg, "Processor.run"), p.Func(apPkg, "Processor.Start"), p.Func(apPkg, "Processor.Close")
-		if r.Anchor("C16/SINGLE-CONSUMER", "asyncprocessor.Processor.{runInner,run,Start,Close}", runInner != nil && run != nil && start != nil && pclose != nil) {
+		r.Rule("C16/SINGLE-CONSUMER", "Pull has one caller (the consumer loop), which is, or is reached only from, the goroutine spawned in Processor.Start; Start marks the processor running before spawning; Close cancels, closes the ring, then waits for the consumer iff running", 5)
+		start, pclose := p.Func(apPkg, "Processor.Start"), p.Func(apPkg, "Processor.Close")
+		// the consumer is whoever calls Pull; the goroutine is whatever Start spawns (found by
+		// structure, so that inlining or renaming the unexported loop functions changes nothing)
+		var runInner, run *ssa.Function
+		for _, ref := range p.RefsTo(pull) {
+			if pk := core.FuncPkg(ref.Caller); pk != nil && core.Rel(pk.Path()) == apPkg && runInner == nil {
+				runInner = ref.Caller
+			}
+		}
+		if start != nil {
+			for _, b := range start.Blocks {
+				for _, in := range b.Instrs {
+					if g, ok := in.(*ssa.Go); ok && g.Call.StaticCallee() != nil {
+						run = g.Call.StaticCallee()
+					}
+				}
+			}
+		}
+		if r.Anchor("C16/SINGLE-CONSUMER", "asyncprocessor: the caller of RingBuffer.Pull, the goroutine spawned by Processor.Start, Processor.Close", runInner != nil && run != nil && start != nil && pclose != nil) {
 			onlyCaller(c, "C16/SINGLE-CONSUMER", pull, []*ssa.Function{runInner})
-			onlyCaller(c, "C16/SINGLE-CONSUMER", runInner, []*ssa.Function{run})
+			if runInner != run {
+				onlyCaller(c, "C16/SINGLE-CONSUMER", runInner, []*ssa.Function{run})
+			} else {
+				r.OK("C16/SINGLE-CONSUMER", "the consumer loop is the spawned function itself", p.Pos(run.Pos()), fnShort(run))
+			}
 			onlyCaller(c, "C16/SINGLE-CONSUMER", run, []*ssa.Function{start})
 			// Start: running = true dominates the go statement
 			runningF := p.Field(apPkg, "Processor", "running")
@@ -257,7 +278,7 @@ func init() {
 		}
 
 		// ERROR-ONCE
-		r.Rule("C16/ERROR-ONCE", "a processing error stops the consumer and is reported exactly once: OnError is invoked at one site in runInner, under err != nil, and is followed by return without another Pull", 2)
+		r.Rule("C16/ERROR-ONCE", "a processing error stops the consumer and is reported exactly once: OnError is invoked at one site in the consumer loop, under err != nil, and is followed by return without another Pull", 2)
 		if runInner != nil {
 			var calls []ssa.Instruction
 			onErrF := p.Field(apPkg, "Processor", "OnError")
@@ -467,6 +488,22 @@ func clearsWholeBuffer(p *core.Prog, fn *ssa.Function) (bool, string) {
 				return false, "the discard loop is not bounded by the buffer size (i < size / len(buffer)): slots outside the range keep their items after Close"
 			}
 			return true, "counting loop over [0, size) storing nil into every slot"
+		}
+	}
+	// the clearing may sit in a helper of the same type called with the same receiver
+	for _, b := range fn.Blocks {
+		for _, in := range b.Instrs {
+			c, ok := in.(*ssa.Call)
+			if !ok || c.Call.StaticCallee() == nil || c.Call.StaticCallee().Blocks == nil || c.Call.StaticCallee().Pkg != fn.Pkg {
+				continue
+			}
+			h := c.Call.StaticCallee()
+			if h == fn || len(c.Call.Args) == 0 || c.Call.Args[0] != ssa.Value(fn.Params[0]) || len(h.Params) == 0 {
+				continue
+			}
+			if ok, why := clearsWholeBuffer(p, h); ok {
+				return true, why + " (in helper " + h.Name() + ")"
+			}
 		}
 	}
 	// alternative: Pull tests closed before handing out data
